@@ -1,10 +1,148 @@
 import QP.Model.PT
-/-! Property theorems for C01 (an instantiated program plays the voltages the template denotes). -/
+import QP.Proofs.PTExamples
+import QP.Proofs.PTTable
+/-!
+# C01 — an instantiated program plays exactly the voltages the template describes
+
+Full statement (DESIGN 4/C01), for every template `pt` and every `to_single_waveform` set:
+
+    createProgram pt params mm cm single = .ok (some prog) →
+      ∃ P, denoteTop pt params mm cm = .ok P ∧ channels prog = P.chanNames ∧
+        ∀ c ∈ P.chanNames, ∀ t, 0 ≤ t → t < P.dur → prog.sample c t = some ((P.val c).at t)
+
+Proved here (`_partial`): the statement for the stage-1 constructor subset `Stage1` (constant and function
+atoms composed by sequencing, repetition, indexed iteration and parameter / channel / measurement mapping),
+without a global transformation and without `to_single_waveform`, for programs all of whose pieces have
+positive duration, *given* that the denotation exists (`denoteTop … = .ok P`; the existence of `P` is not
+proved: the denotation additionally demands affine function expressions that evaluate, and equal channel sets
+of sequenced parts).  Table / point / multi-channel / arithmetic atoms, parallel
+channels, scalar arithmetic, time reversal and the single-waveform collapse are covered by the
+correspondence + judge only; `builder_correct_over_atoms` shows that the builder part of the proof does not
+depend on which atoms are used.
+-/
 namespace QP.Props.C01
 open QP.PT
 
-/-- a guarded composite that appends nothing leaves nothing behind (its own windows are dropped) -/
-theorem guardRun_no_node (ms : List Window) : guardRun ms [] = [] := by
+/-- **compile correctness (partial)**: for a stage-1 template the compiled program, sampled anywhere in
+`[0, duration)`, yields on every channel of the denoted pulse exactly the denoted voltage — a value, never NaN —
+and every played piece defines exactly the channels of the denoted pulse (dropped channels absent, no other
+channel appears). -/
+theorem compile_correct_partial {pt : PT} (hs : Stage1 pt) (params : List (String × Rat))
+    (mm : Option (List (MName × Option MName))) (cm : List (Chan × Option Chan)) (prog : Loop) (P : Pulse)
+    (hprog : createProgram pt params mm cm [] = .ok (some prog))
+    (hden : denoteTop pt params mm cm = .ok P) (hpos : prog.allPos) :
+    (∀ cs ∈ prog.leafChannels, ∀ x, x ∈ cs ↔ x ∈ P.chanNames) ∧
+    ∀ c pl, P.chans.lookup c = some pl → ∀ t, 0 ≤ t → t < P.dur →
+      ∃ v, prog.sample c t = some v ∧ PL.at pl t = some v := by
+  refine ⟨(createProgram_rel hs params mm cm prog P hprog hden hpos).2.2.2, ?_⟩
+  intro c pl hc t ht0 ht
+  obtain ⟨_, hsample, _⟩ := createProgram_rel hs params mm cm prog P hprog hden hpos
+  have := hsample c pl hc t ht0 ht
+  -- the denoted function is defined on the whole of `[0, duration)`
+  have hrel : ∃ v, PL.at pl t = some v := by
+    simp only [createProgram, bind_ok, pure_ok] at hprog
+    obtain ⟨ctx, hctx, items, hitems, hp⟩ := hprog
+    simp only [denoteTop, bind_ok] at hden
+    obtain ⟨ctx', hctx', h2⟩ := hden
+    rw [hctx] at hctx'; cases hctx'
+    obtain ⟨hsingle, htrafo⟩ := topCtx_ok hctx
+    have hctx0 : ctx = ctx0 ctx.scope ctx.mm ctx.cm := by
+      cases ctx; simp only [ctx0] at *; simp [hsingle, htrafo]
+    unfold compile at hitems
+    rw [wrapSingle_nil _ _ _ hsingle, hctx0] at hitems
+    have hposl : Loop.allPosList (nodesOf items) := by
+      unfold toProgram at hp
+      simp only [rootLoop, applyItems_eq, List.nil_append, Loop.durationList] at hp
+      by_cases he : (Loop.mk 1 none (measW items 0) (nodesOf items)).isEmpty
+      · simp [he] at hp
+      · simp only [he, Bool.false_eq_true, if_false, Option.some.injEq] at hp
+        subst hp
+        cases hcs : nodesOf items with
+        | nil => exact allPosList_nil
+        | cons c0 cs0 =>
+          rw [hcs] at hpos
+          simp only [Loop.allPos, Loop.allPosB, Bool.and_eq_true] at hpos
+          exact hpos.2
+    have hr := compile_rel hs.basic ctx.scope ctx.mm ctx.cm items P hitems h2 hposl
+    exact PL.at_isSome pl t ht0 (by rw [hr.plDur c pl hc]; exact ht)
+  obtain ⟨v, hv⟩ := hrel
+  exact ⟨v, by rw [this, hv], hv⟩
+
+/-- **the builder is correct whatever the atoms are**: sequences, repetitions, iterations and mappings of
+atomic templates that satisfy the relation `Rel` (leaf and windows = denoted pulse) satisfy it again — this is
+the `LoopBuilder` part of compile correctness (`LoopGuard`, `_try_append`, `with_repetition`,
+`with_iteration`, scope / mapping threading), independent of the waveform classes. -/
+theorem builder_correct_over_atoms {pt : PT} (hb : Basic pt) : CompileOK pt := compile_rel hb
+
+/-- a function template whose expression is syntactically affine in `t` denotes a straight line -/
+theorem function_affine (e : Expr) (look : String → Except Err Rat) (h : e.affineIn "t" = true)
+    (a b : Rat) (h0 : e.eval (withT "t" look 0) = .ok a) (h1 : e.eval (withT "t" look 1) = .ok b) :
+    ∀ t, e.eval (withT "t" look t) = .ok (a + (b - a) * t) := affine_eval e "t" look h a b h0 h1
+
+/-- **the judge**: the values the harness accepts for a sample (`PL.adm`, printed by the driver) are exactly the
+right-open value `PL.at` of the theorem above wherever no time reversal is involved … -/
+theorem judge_is_at (pl : PL) (h : ∀ s ∈ pl, s.amb = false) (t : Rat) :
+    PL.adm none pl t = (PL.at pl t).toList := adm_eq_at pl h none t
+
+/-- … and always contain it (inside a reversed part the left limit at a junction may follow) -/
+theorem judge_contains_at (pl : PL) (t v : Rat) (h : PL.at pl t = some v) :
+    ∃ rest, PL.adm none pl t = v :: rest := adm_head pl none t v h
+
+/-- **PF-01 (repaired): the constant detection of `TableWaveform.from_table` is sound.** When a table is folded
+into a constant waveform of value `c`, every one of its segments — judged with its *own* interpolation — is the
+constant `c`, so the table denotes the constant function `c` of the same duration. -/
+theorem table_const_detection_sound (ch ch' : Chan) (es : List WEntry) (d c : Rat)
+    (h : fromTable ch es = .ok (.const d ch' c)) :
+    d = lastT es ∧ ch' = ch ∧ ∀ s ∈ entriesToPL es, s.v0 = c ∧ s.v1 = c := by
+  obtain ⟨hp, hd, hch⟩ := fromTable_const_sound ch ch' es d c h
+  exact ⟨hd, hch, entriesToPL_const c es hp⟩
+
+/-- PF-01 on its witness `[(0, 1), (1, 1, 'hold'), (2, 3, 'linear')]`: the detection as it was (next segment judged
+with the previous entry's interpolation) calls the table constant 1, the repaired one does not, and the table
+denotes a ramp from 1 to 3 on `[1, 2)`. -/
+theorem pf01_counterexample :
+    (validateLoopOld [⟨2, 3, .linear⟩] 0 1 ⟨1, 1, .hold⟩ (interpConst .hold 1 1) [⟨0, 1, .hold⟩]).map (·.2.1)
+      = .ok (some 1) ∧
+    (validateLoop [⟨2, 3, .linear⟩] 0 1 ⟨1, 1, .hold⟩ (interpConst .hold 1 1) [⟨0, 1, .hold⟩]).map (·.2.1)
+      = .ok none ∧
+    entriesToPL pf01Table = [{ len := 1, v0 := 1, v1 := 1 }, { len := 1, v0 := 1, v1 := 3 }] := pf01_witness
+
+/-- `LoopGuard`: a sequence / iteration that appends nothing leaves nothing behind, its own windows included -/
+theorem guard_drops_empty (ms : List Window) : guardRun ms [] = [] := by
   simp [guardRun]
+
+/-- `LoopGuard` never changes which nodes are appended -/
+theorem guard_keeps_nodes (ms : List Window) (items : List Item) : nodesOf (guardRun ms items) = nodesOf items :=
+  nodesOf_guardRun items ms
+
+/-! ## Non-vacuity: the hypotheses of `compile_correct_partial` are satisfiable
+(`QP/Proofs/PTExamples.lean` evaluates `createProgram`, `denoteTop` and `allPos` on `exPt`) -/
+
+example : Stage1 (.seq none [exPt, .rep none exPt (.var "n") [] []] [] []) :=
+  Stage1.seq (by
+    intro p hp
+    simp only [List.mem_cons, List.not_mem_nil, or_false] at hp
+    rcases hp with rfl | rfl
+    · exact Stage1.const
+    · exact Stage1.rep Stage1.const)
+
+example : ∃ prog P, createProgram exPt [] none [] [] = .ok (some prog) ∧ denoteTop exPt [] none [] = .ok P ∧
+    prog.allPos := ⟨exProg, _, exPt_program, exPt_denote, exProg_allPos⟩
+
+/-! ## PF-11 (open finding): `ParallelChannelPulseTemplate` chains `(global, parallel)`
+
+The full statement is **false** of the code: a channel overwritten by a `ParallelChannelPT` that lies below an
+`ArithmeticPT` (or another `ParallelChannelPT`) touching that channel does not see the enclosing
+transformation.  `Stage1` contains neither constructor, so `compile_correct_partial` is outside the class;
+`inPF11` is the class predicate the harness uses (`ptcheck.pf11_channels`). -/
+
+/-- **PF-11, the negation of the full statement on the witness** `2 * ParallelChannelPT(FunctionPT('t', 2, 'A'),
+{'B': 1})`: the compiled program plays `B = 1` at `t = 0`, the template denotes `B = 2`; the witness is in the
+recorded class. -/
+theorem pf11_counterexample :
+    createProgram pf11Pt [] none [] [] = .ok (some pf11Prog) ∧
+    denoteTop pf11Pt [] none [] = .ok pf11Pulse ∧
+    pf11Prog.sample "B" 0 = some 1 ∧
+    (pf11Pulse.chans.lookup "B").map (fun pl => PL.at pl 0) = some (some 2) := pf11_witness
 
 end QP.Props.C01
